@@ -61,9 +61,12 @@ pub fn schedule_part(run: &Run) -> SchedOut {
             || total_table(&KhHomology::<i64>::new(&link, &h, &t, reduced)),
             |r, tr| {
                 let detail = || json!({"pd": d.pd(), "h": h, "t": t, "reduced": reduced, "schedule": tr.choices(), "preemptions": tr.preemptions()});
-                if let Some(Abort::Diverged(m)) = &tr.abort {
-                    eprintln!("MACHINERY ERROR: schedule replay diverged on {key}: {m}");
-                    std::process::exit(3);
+                if tr.diverged.is_some() {
+                    // KhHomology::new is not a deterministic function of the schedule (hash-seeded
+                    // iteration orders decide which circle is delooped / which edge is eliminated next,
+                    // hence how many parallel items there are): the prefix could not be followed to its
+                    // end; the execution that happened instead is still judged
+                    run.add("sched_prefixes_not_replayable", 1);
                 }
                 match (&tr.abort, r) {
                     (Some(ab), _) => {
@@ -102,6 +105,8 @@ pub fn schedule_part(run: &Run) -> SchedOut {
         executions: g.0,
         points: g.1,
         json: json!({"problems": g.3, "workers": 2, "preemption_bound": "1 (thorough: 2 for <= 2 crossings)", "executions": g.0,
-                     "lock_points_passed": g.1, "scheduled_parallel_calls": g.2, "problems_where_bound_cut": g.4, "execution_cap_per_problem": exec_cap}),
+                     "lock_points_passed": g.1, "scheduled_parallel_calls": g.2, "problems_where_bound_cut": g.4, "execution_cap_per_problem": exec_cap,
+                     "prefixes_not_replayable_because_of_hash_order": run.get("sched_prefixes_not_replayable"),
+                     "note": "KhHomology::new is not a deterministic function of the schedule (hash-seeded orders); a DFS prefix that cannot be followed is abandoned and the execution that happened is judged instead, so the enumeration below the bound is not guaranteed complete"}),
     }
 }
